@@ -23,16 +23,18 @@ from harness.tla_values import to_tla
 
 WORKERS = int(os.environ.get("C10_WORKERS", "8"))
 
-VARIANT_ORDER = [
-    dict(zpeCutoff=False, projBandIndices=False, pyProjTotals=False),   # pinned tree
-    dict(zpeCutoff=True, projBandIndices=True, pyProjTotals=True),      # all three repaired
-    dict(zpeCutoff=True, projBandIndices=False, pyProjTotals=False),
-    dict(zpeCutoff=False, projBandIndices=True, pyProjTotals=False),
-    dict(zpeCutoff=True, projBandIndices=True, pyProjTotals=False),
-    dict(zpeCutoff=False, projBandIndices=False, pyProjTotals=True),
-    dict(zpeCutoff=True, projBandIndices=False, pyProjTotals=True),
-    dict(zpeCutoff=False, projBandIndices=True, pyProjTotals=True),
-]
+def _variants():
+    import itertools
+    keys = ("zpeCutoff", "projBandIndices", "pyProjTotals", "weightsByValue")
+    allv = [dict(zip(keys, v)) for v in itertools.product((True, False), repeat=4)]
+    first = [dict(zip(keys, (True, True, True, False))),      # the tree after the first round of repairs
+             dict(zip(keys, (True, True, True, True))),       # everything repaired
+             dict(zip(keys, (False, False, False, False)))]   # the pinned tree
+    return first + [v for v in allv if v not in first]
+
+
+VARIANT_ORDER = _variants()
+ALL_REPAIRED = VARIANT_ORDER[1]
 
 JUDGE_TRACE = dict(init="TInit", next="TNext", vars="tvars", cond='pc = "done"')
 IMPL_INVS = ["ImplNoError", "ImplExact", "ImplProjExact", "ImplFinite", "ImplTemps", "ImplTerms", "ImplZeroPoint", "ImplZeroT",
@@ -298,26 +300,27 @@ def phase_model(ctx, variant):
     """Exhaustive model check of Thermal.tla for the identified variant of the code."""
     # without a conforming variant the requirement is judged on the logged values only (phase_trace); the model run
     # then only confirms that the fully repaired machine meets the requirement
-    var = variant or VARIANT_ORDER[1]
+    var = variant or ALL_REPAIRED
     invs = ["InvNoError", "InvTermsC", "InvTermsPy", "InvSameTermsBothLanguages", "InvPyReportsTotals",
             "InvOnlyAboveCutoff", "InvZeroT", "InvTemperatures", "InvCounts", "InvZeroPointAttribute",
             "InvProjection", "InvCountMatchesTerms"]
+    cuts2 = "{[g |-> FALSE, c |-> 0], [g |-> TRUE, c |-> 1]}"
     cuts3 = "{[g |-> FALSE, c |-> 0], [g |-> TRUE, c |-> -1], [g |-> TRUE, c |-> 1]}"
     cuts4 = "{[g |-> FALSE, c |-> 0], [g |-> TRUE, c |-> -1], [g |-> TRUE, c |-> 1], [g |-> TRUE, c |-> 2]}"
-    bis2 = "{[g |-> FALSE, s |-> <<>>], [g |-> TRUE, s |-> <<2>>], [g |-> TRUE, s |-> <<2, 1>>]}"
+    bis2 = "{[g |-> FALSE, s |-> <<>>], [g |-> TRUE, s |-> <<2>>], [g |-> TRUE, s |-> <<2, 1>>], [g |-> TRUE, s |-> <<2, 1, 2>>]}"
     bis2all = "{[g |-> FALSE, s |-> <<>>], [g |-> TRUE, s |-> <<1>>], [g |-> TRUE, s |-> <<2>>], [g |-> TRUE, s |-> <<2, 1>>]}"
     bis3 = ("{[g |-> FALSE, s |-> <<>>], [g |-> TRUE, s |-> <<1>>], [g |-> TRUE, s |-> <<3>>], [g |-> TRUE, s |-> <<1, 3>>],"
-            " [g |-> TRUE, s |-> <<3, 1, 2>>]}")
-    tiny = ("AllSeeds(1, 2, {-1, 0, 1, 2}, {2}, TRUE)", "AllOptions(%s, %s, {<<-1, 0, 1>>}, BOOLEAN)" % (cuts3, bis2))
+            " [g |-> TRUE, s |-> <<3, 1, 2>>], [g |-> TRUE, s |-> <<2, 2>>], [g |-> TRUE, s |-> <<1, 3, 1>>]}")
+    tiny = ("AllSeeds(1, 2, {-1, 0, 1, 2}, {2}, TRUE)", "AllOptions(%s, %s, {<<-1, 0, 1>>}, BOOLEAN, {\"int64\", \"intc\"})" % (cuts3, bis2))
     if ctx.quick:
         bisq = "{[g |-> FALSE, s |-> <<>>], [g |-> TRUE, s |-> <<2>>]}"
         spaces = [tiny, ("AllSeeds(2, 2, {-1, 0, 1, 2}, {1, 2}, TRUE)",
-                         "AllOptions(%s, %s, {<<-1, 0, 1>>}, BOOLEAN)" % (cuts3, bisq))]
+                         "AllOptions(%s, %s, {<<-1, 0, 1>>}, BOOLEAN, {\"int64\", \"strided\"})" % (cuts2, bisq))]
     else:
         spaces = [tiny, ("AllSeeds(2, 2, {-1, 0, 1, 2}, {1, 2}, FALSE)",
-                   "AllOptions(%s, %s, {<<-1, 0, 1>>, <<1, 0>>}, BOOLEAN)" % (cuts4, bis2all)),
+                   "AllOptions(%s, %s, {<<-1, 0, 1>>, <<1, 0>>}, BOOLEAN, {\"int64\", \"intc\"})" % (cuts4, bis2all)),
                   ("AllSeeds(2, 3, {-1, 0, 1, 2}, {1, 3}, TRUE)",
-                   "AllOptions(%s, %s, {<<0, -1, 1>>}, BOOLEAN)" % (cuts4, bis3))]
+                   "AllOptions(%s, %s, {<<0, -1, 1>>}, BOOLEAN, {\"int64\", \"uint64\", \"strided\"})" % (cuts4, bis3))]
     violated = set()
     wit = {}
     cov = {}
@@ -630,7 +633,7 @@ def phase_api(ctx):
             cfg = dict(id=cid, lev=lev, w=w, cutGiven=cut is not None,
                        cut=(0 if cut is None else (-1 if cut < 0 else rank[cut])), pr=bool(kw.get("pretend_real", False)),
                        biGiven="band_indices" in kw, bi=[int(b) + 1 for b in np.hstack(kw["band_indices"])] if "band_indices" in kw else [],
-                       classical=bool(kw.get("classical", False)), proj=False, temps=temps, ed=1, e2=[])
+                       classical=bool(kw.get("classical", False)), proj=False, temps=temps, ed=1, e2=[], wl="int64", fl="c", el="c")
             real = types.SimpleNamespace(cfg=cfg, T=T, tlevel=tlevel, nu_of_level=nu_of_level)
             try:
                 with np.errstate(all="ignore"):
@@ -647,7 +650,7 @@ def phase_api(ctx):
             ctx.traces += 1
             ctx.count(("api", cid))
     body = ("MCVariant == %s\nMCEvents == LET J == JsonDeserialize(\"events.json\") IN {J[i] : i \\in DOMAIN J}\n"
-            "MCMExp == %s\nMCNL == %d\n" % (to_tla(VARIANT_ORDER[1]), to_tla({k: v for k, v in N.MEXP.items()}), N.NLEV))
+            "MCMExp == %s\nMCNL == %d\n" % (to_tla(ALL_REPAIRED), to_tla({k: v for k, v in N.MEXP.items()}), N.NLEV))
     name = "MC_ThermalTrace"
     mod = once_module(name, "ThermalTrace, Json", body, ["MachineMeetsRequirement"], judge=JUDGE_TRACE)
     res = ctx.tlc(name, cfg_text=trace_cfg(["O_MachineMeetsRequirement"]),
